@@ -436,7 +436,10 @@ class LSym:
         if la >= 0 and ha < (1 << min(rb.tz(), 4096)): return pa + pb
         if lb >= 0 and hb < (1 << min(ra.tz(), 4096)): return pa + pb
         if self.is_bool(pa) and self.is_bool(pb): return pa + pb - pa * pb
-        # constant with all ones over the symbolic range
+        # x | c  for a constant c:  x - (x & c) + c   (the bits of c are forced to one)
+        if pb.is_const() or pa.is_const():
+            x, c = (pa, pb) if pb.is_const() else (pb, pa)
+            return x - self.P(self.op_and(w, x, c)) + c
         raise Unsupported("or of overlapping symbolic values")
 
     def op_xor(self, w, a, b):
